@@ -1,7 +1,9 @@
 package vtx
 
 import (
+	"errors"
 	"fmt"
+	"github.com/pion/turn/v5/verif/simnet"
 	"net"
 	"sort"
 	"strings"
@@ -59,6 +61,10 @@ func (e Event) Class() string {
 	case "refresh":
 		if e.Fam != 0 {
 			return fmt.Sprintf("refresh(%s,L=%d,fam=%d)", e.C, e.L, e.Fam)
+		}
+
+		if e.Fail == "closeerr" {
+			return fmt.Sprintf("refresh(%s,L=%d,relay-socket-close-fails)", e.C, e.L)
 		}
 
 		return fmt.Sprintf("refresh(%s,L=%d)", e.C, e.L)
@@ -313,6 +319,18 @@ func (x *Exec) Apply(ev Event) *Viol { //nolint:gocyclo,cyclop,maintidx,gocognit
 	case "refresh":
 		c := w.C[ev.C]
 		a := m.Allocs[ev.C]
+		var failing *simnet.UDPSock
+		if ev.Fail == "closeerr" && ev.L == 0 && a != nil && !a.TCP && a.Relay != nil {
+			// the relay socket refuses to be closed once (a custom generator's conn may): the allocation ends all the same
+			if failing = w.Net.UDPAt(a.Relay.String()); failing != nil {
+				failing.CloseErr = errors.New("vtx: injected close error")
+				defer func() {
+					failing.CloseErr = nil
+					_ = failing.Close() // ... and the harness releases what the library could not
+					synctest.Wait()
+				}()
+			}
+		}
 		res := c.Request(wire.Refresh, nil, func(b *wire.B) {
 			if ev.L >= 0 {
 				b.U32(wire.AttrLifetime, uint32(ev.L)) //nolint:gosec
